@@ -11,6 +11,7 @@
 #include <optional>
 #include <sstream>
 #include <streambuf>
+#include <tuple>
 #include <type_traits>
 #include <variant>
 
@@ -282,6 +283,25 @@ typename B::owning_data_t build(Cur & c)
     }
 }
 
+// the per-layer configurations alone, outermost first, as a tuple (for make_parameter_pack_for)
+template <typename B>
+auto parse_cfg_tuple(Cur & c)
+{
+    if constexpr (B::is_initial) {
+        if constexpr (requires(typename B::owning_data_t o) { o.m_ptr; }) {
+            typename B::configuration_t cfg{u64(c.next())};
+            return std::make_tuple(cfg);
+        } else if constexpr (std::is_same_v<typename B::configuration_t, std::monostate>) {
+            return std::make_tuple(std::monostate{});
+        } else {
+            return std::make_tuple(L<B>::parse(c));
+        }
+    } else {
+        auto cfg = L<B>::parse(c);
+        return std::tuple_cat(std::make_tuple(cfg), parse_cfg_tuple<typename B::backend_t>(c));
+    }
+}
+
 // configurations, outermost first, one ';'-separated group per layer
 template <typename B>
 void show_configs(std::ostream & os, const typename B::owning_data_t & o)
@@ -358,6 +378,8 @@ template <typename B>
 struct H : Handler {
     using field_t = covfie::field<B>;
     using view_t = covfie::field_view<B>;
+    static_assert(covfie::concepts::field_backend<B>, "the stack must satisfy the backend concept");
+    static_assert(std::is_trivially_copyable_v<view_t>, "a field view must be trivially copyable");
     using coord_t = typename B::contravariant_input_t::vector_t;
     static constexpr std::size_t N = B::contravariant_input_t::dimensions;
     static constexpr std::size_t M = B::covariant_output_t::dimensions;
@@ -388,6 +410,15 @@ struct H : Handler {
         if (name == "new") {
             std::size_t s = u64(c.next());
             slots[s].emplace(covfie::make_parameter_pack(build<B>(c)));
+            return "OK";
+        }
+        if (name == "newp") {
+            // construct from the positional configurations through make_parameter_pack_for
+            std::size_t s = u64(c.next());
+            auto tup = parse_cfg_tuple<B>(c);
+            std::apply(
+                [&](auto... a) { slots[s].emplace(covfie::make_parameter_pack_for<field_t>(std::move(a)...)); }, tup
+            );
             return "OK";
         }
         if (name == "at" || name == "atv") {
